@@ -77,17 +77,34 @@ def programs(draw, tier):
         else:
             ops.append({"op": k})
     return {"ops": ops, "seed": draw(st.integers(0, 2 ** 32 - 1)), "seed2": draw(st.integers(0, 2 ** 32 - 1)),
-            "np_seeds": [draw(st.integers(0, 2 ** 31 - 1)) for _ in range(2)], "consume": draw(st.integers(0, 5))}
+            "np_seeds": [draw(st.integers(0, 2 ** 31 - 1)) for _ in range(2)], "consume": draw(st.integers(0, 5)),
+            "seed_form": draw(st.sampled_from(["explicit", "explicit", "default", "cpu_gpu", "gpu_positional"]))}
 
 
 class Diverged(Exception):
     """parameters became non-finite during a generated fit (zero-probability rows): excluded, not judged"""
 
 
-def run_program(ops, seed, tmp):
+def seed_lib(seed, form):
+    """the documented ways of asking for a seeded CPU generator (gpu=True is legal on a host without CUDA)"""
+    import warnings
+    import qucumber
+    with warnings.catch_warnings():
+        warnings.simplefilter("ignore")
+        if form == "default":
+            qucumber.set_random_seed(seed)
+        elif form == "cpu_gpu":
+            qucumber.set_random_seed(seed, cpu=True, gpu=True, quiet=True)
+        elif form == "gpu_positional":
+            qucumber.set_random_seed(seed, True, True, True)
+        else:
+            qucumber.set_random_seed(seed, cpu=True, gpu=False, quiet=True)
+
+
+def run_program(ops, seed, tmp, form="explicit"):
     import qucumber
     from qucumber.observables import System
-    qucumber.set_random_seed(seed, cpu=True, gpu=False, quiet=True)
+    seed_lib(seed, form)
     outs = []
     state = None
     for i, op in enumerate(ops):
@@ -140,22 +157,23 @@ def check_repro(c):
     with tempfile.TemporaryDirectory(prefix="vf_c14_") as tmp:
         np.random.seed(c["np_seeds"][0]); random.seed(c["np_seeds"][0])
         try:
-            a = run_program(c["ops"], c["seed"], tmp)
+            a = run_program(c["ops"], c["seed"], tmp, c.get("seed_form", "explicit"))
         except Diverged:
             return {"nontrivial": False, "excluded": 1, "labels": ["diverged"]}
         np.random.seed(c["np_seeds"][1]); random.seed(c["np_seeds"][1])
         for _ in range(c["consume"]):
             np.random.rand(3); random.random(); np.random.permutation(5)
-        b = run_program(c["ops"], c["seed"], tmp)
+        torch.rand(1 + c["consume"])      # the torch stream is somewhere else as well before the second seeding call
+        b = run_program(c["ops"], c["seed"], tmp, c.get("seed_form", "explicit"))
     for i, (x, y) in enumerate(zip(a, b)):
         what = c["ops"][i]["op"] if i < len(c["ops"]) else "final parameters"
         require(deep_equal(x, y), f"not-reproducible:{what}", f"output #{i} ({what}) differs between two runs seeded identically through set_random_seed({c['seed']})",
                 first=str(x)[:300], second=str(y)[:300])
     if c["seed2"] != c["seed"]:
-        qucumber.set_random_seed(c["seed"], cpu=True, gpu=False, quiet=True)
+        seed_lib(c["seed"], c.get("seed_form", "explicit"))
         s1 = construct(dict(c["ops"][0], n=3, nh=3))
         w1, d1 = params_flat(s1), s1.sample(1, num_samples=64)
-        qucumber.set_random_seed(c["seed2"], cpu=True, gpu=False, quiet=True)
+        seed_lib(c["seed2"], c.get("seed_form", "explicit"))
         s2 = construct(dict(c["ops"][0], n=3, nh=3))
         w2, d2 = params_flat(s2), s2.sample(1, num_samples=64)
         require(not torch.equal(w1, w2), "seed-ignored:init", f"different seeds {c['seed']} / {c['seed2']} gave identical initial weights")
